@@ -190,7 +190,9 @@ async fn apply_version(
             }
         }
         if let Some(o) = svr_op {
-            if let Err(e) = apply::apply_op(txn, &o).await {
+            // an operation that is invalid in the local state is ignored, but a storage failure
+            // is not: the operation would otherwise be skipped while the base version advances
+            if let Err(e) = apply::try_apply_op(txn, &o).await? {
                 warn!("Invalid operation when syncing: {e} (ignored)");
             }
             transformed_server_ops.push(o);
